@@ -783,9 +783,15 @@ fn run_typed<const P: u8, const G: i8>(out: &mut TraceWriter, ops: &[Op], seed: 
     r.emit(&mut dev, ev, Some(&ops[0]));
     let mut executed: Vec<Op> = vec![ops[0].clone()];
     let mut steps = 0usize;
+    let publish = |executed: &Vec<Op>| {
+        if let Ok(mut h) = crate::cli::WATCH_HIST.lock() {
+            *h = (serde_json::to_string(executed).unwrap_or_default(), seed);
+        }
+    };
     for op in &ops[1..] {
         steps += 1;
         executed.push(op.clone());
+        publish(&executed);
         if !r.exec(&mut dev, op) {
             return executed;
         }
@@ -796,6 +802,7 @@ fn run_typed<const P: u8, const G: i8>(out: &mut TraceWriter, ops: &[Op], seed: 
             let Some(op) = g(&v) else { break };
             steps += 1;
             executed.push(op.clone());
+            publish(&executed);
             if !r.exec(&mut dev, &op) {
                 return executed;
             }
@@ -2178,7 +2185,9 @@ pub fn vh_macreplay(a: &Args) {
     let v: Value = serde_json::from_str(&text).unwrap();
     let ops: Vec<Op> = v["ops"].as_array().unwrap().iter().map(|o| serde_json::from_value(o.clone()).unwrap()).collect();
     let mut out = crate::cli::Shards::create(&a.out, "mac", 1);
-    let _ = run_history(out.shard(0), &ops, a.seed, None);
+    // (a history recorded by the watchdog carries the seed of its RNG: draws that were not recorded are redrawn alike)
+    let seed = v["hseed"].as_str().and_then(|s| s.parse::<u64>().ok()).unwrap_or(a.seed);
+    let _ = run_history(out.shard(0), &ops, seed, None);
     println!("events={} histories=1", out.finish());
 }
 
